@@ -40,6 +40,8 @@ type World struct {
 	// fallible source methods; Ctor: source struct type → fallible default constructor.
 	MethodSrc map[string][][2]string
 	Ctor      map[string]string
+	// Enums: source enum type name → number of declared members (values 0..n-1).
+	Enums map[string]int
 }
 
 // ---- statistics -------------------------------------------------------------------------
@@ -143,12 +145,14 @@ func execC04(rt *rapid.T, w *World, m Method) {
 	tape := &Tape{Src: rapidChooser{rt}}
 	b0 := NewBuilder(tape, 0)
 	b0.Share = true
+	b0.Enums = w.Enums
 	sources := make([]reflect.Value, nTasks)
 	sources[0] = b0.Build(srcT)
 	for i := 1; i < nTasks; i++ {
 		if distinct {
 			bi := NewBuilder(tape.Replay(), i)
 			bi.Share = true
+			bi.Enums = w.Enums
 			sources[i] = bi.Build(srcT)
 		} else {
 			sources[i] = sources[0]
@@ -164,26 +168,15 @@ func execC04(rt *rapid.T, w *World, m Method) {
 		}
 		return 0
 	}
-	// sequential, materialised references and snapshots
+	// snapshots before anything runs; the sequential, materialised references are computed
+	// AFTER the concurrent run (the sources are proven unchanged by then), so that in a fresh
+	// process the very first calls of the method are the concurrent ones.
 	refs := make([]reflect.Value, nSrc)
 	snaps := make([]reflect.Value, nSrc)
 	graphs := make([][]Region, nSrc)
 	for i := 0; i < nSrc; i++ {
 		snaps[i] = Clone(sources[i])
 		graphs[i] = Regions(sources[i])
-		r, err, pan := call(m.Fn, sources[i])
-		if pan != nil {
-			// panics on well-typed input are C02's subject, not C04's: skip the execution
-			Count("c04.skipped_panicking_input", 1)
-			rt.Skip()
-		}
-		if err != nil {
-			rt.Fatalf("C04 world has a fallible method %s: %v", m.Name, err)
-		}
-		refs[i] = Clone(r)
-		if ok, p := Equal(sources[i], snaps[i]); !ok {
-			rt.Fatalf("C04 source-modified: %s changed its source during an uninterrupted call at %s", m.Name, p)
-		}
 	}
 	// the schedule
 	pct := rapid.IntRange(0, 1).Draw(rt, "sched-pct") == 1
@@ -272,7 +265,28 @@ func execC04(rt *rapid.T, w *World, m Method) {
 		Distinct("c04.nontrivial", hashOf(m.Name, h.Sum64(), tape.Vals, distinct, orderSeed))
 	}
 	if err != nil {
+		if strings.Contains(err.Error(), "panicked") && !strings.Contains(err.Error(), "concurrent map") {
+			// a panic that also happens in an uninterrupted call is C02's subject
+			if _, _, pan := call(m.Fn, Clone(sources[0])); pan != nil {
+				Count("c04.skipped_panicking_input", 1)
+				rt.Skip()
+			}
+		}
 		rt.Fatalf("%v", err)
+	}
+	for i := 0; i < nSrc; i++ {
+		r, cerr, pan := call(m.Fn, sources[i])
+		if pan != nil {
+			Count("c04.skipped_panicking_input", 1)
+			rt.Skip()
+		}
+		if cerr != nil {
+			rt.Fatalf("C04 world has a fallible method %s: %v", m.Name, cerr)
+		}
+		refs[i] = Clone(r)
+		if ok, p := Equal(sources[i], snaps[i]); !ok {
+			rt.Fatalf("C04 source-modified: %s changed its source during an uninterrupted call at %s", m.Name, p)
+		}
 	}
 	shared := 0
 	for i := 0; i < nTasks; i++ {
